@@ -528,6 +528,7 @@ type ScenarioResult struct {
 	Setup string     `json:"setup"`
 	Ops   []OpResult `json:"ops"`
 	Fatal string     `json:"fatal,omitempty"`
+	Hang  string     `json:"hang,omitempty"`
 	SetupPanic string `json:"setup_panic,omitempty"`
 	Nondet     string `json:"nondet,omitempty"`
 	Other      *ScenarioResult `json:"other,omitempty"`
